@@ -78,7 +78,8 @@ def gen_cmp(rng):
             rng.shuffle(order)
         ranks.append({"name": f"m{t}" if rng.random() < 0.7 else rng.choice(["x", "zz", "Q"]) + str(t),
                       "alternatives": order, "values": random_dense(rng, n)})
-    return {"ranks": ranks, "untied": rng.random() < 0.5}
+    # "asked_before": the same comparator object has already answered the same questions with the other `untied`
+    return {"ranks": ranks, "untied": rng.random() < 0.5, "asked_before": rng.random() < 0.5}
 
 
 def run_cmp(case):
@@ -88,6 +89,12 @@ def run_cmp(case):
         rc = RanksComparator([(r["name"], RankResult(r["name"], r["alternatives"], r["values"], {}))
                               for r in case["ranks"]])
         u = case["untied"]
+        if case.get("asked_before"):
+            for q in (rc.to_dataframe, rc.corr, rc.cov, rc.r2_score, rc.distance):
+                try:
+                    q(untied=not u)
+                except Exception:  # noqa: BLE001
+                    pass
         df = rc.to_dataframe(untied=u)
         out = {"frame": {str(c): {str(a): float(df.loc[a, c]) for a in df.index} for c in df.columns}}
         for key, tb in (("corr", rc.corr(untied=u)), ("cov", rc.cov(untied=u)), ("r2", rc.r2_score(untied=u)),
